@@ -17,7 +17,7 @@ def sources(ctx):
     src = [(vlib.fmt_of_ext(e), p) for e, p in vlib.fixtures(("xlsx", "xlsm", "xlsb", "xls", "ods"))]
     try:
         import gensheets
-        src += gensheets.generate(ctx, n=ctx.scale(30, 300))
+        src += gensheets.generate(ctx, n=ctx.scale(16, 150))
     except ImportError:
         ctx.notes.append("generated workbooks unavailable (tools/gensheets.py missing): fixtures only")
     return src
@@ -43,14 +43,54 @@ def gen_history(rng, fmt, names, tables):
         elif r < 0.83:
             ops.append(rng.choice(["sheets", "meta", "names"]))
         elif r < 0.88 and fmt in ("xlsx", "xls"):
-            ops.append("merges " + pick())
+            k2 = rng.random()
+            if k2 < 0.4:
+                ops.append("merges " + pick())
+            elif k2 < 0.55:
+                ops.append("mergesat %d" % rng.randrange(0, len(names) + 1))
+            elif k2 < 0.8 and fmt == "xlsx":
+                ops.append("mergesby " + pick())
+            elif fmt == "xlsx":
+                ops.append("allmerges")
+            else:
+                ops.append("merges " + pick())
         elif r < 0.93 and fmt == "xlsx":
-            ops.append("table " + (rng.choice(tables) if tables and rng.random() < 0.8 else hexs("NoTable")) if rng.random() < 0.6 else "tables")
+            k2 = rng.random()
+            if k2 < 0.5:
+                ops.append("table " + (rng.choice(tables) if tables and rng.random() < 0.8 else hexs("NoTable")))
+            elif k2 < 0.75:
+                ops.append("tables")
+            else:
+                ops.append("tablesin " + pick())
+        elif r < 0.95 and fmt in HAS_REF:
+            ops.append("atref %d" % rng.randrange(0, len(names) + 1))
         elif r < 0.97:
             ops.append("vba")
         else:
             ops.append("range " + pick())
     return ops
+
+def vocabulary(fmt, names, tables):
+    """every kind of read call, instantiated on the first sheets — for the pairwise interleavings"""
+    v = ["hdr 1", "hdr -", "wsall", "sheets", "meta", "names", "vba"]
+    for i, n in enumerate(names[:2]):
+        v += ["range " + n, "formula " + n, "at %d" % i]
+        if fmt in HAS_REF:
+            v += ["ref " + n, "atref %d" % i]
+        if fmt in ("xlsx", "xls"):
+            v += ["merges " + n, "mergesat %d" % i]
+        if fmt == "xlsx":
+            v += ["mergesby " + n, "tablesin " + n]
+    if fmt == "xlsx":
+        v += ["allmerges", "tables"] + ["table " + t for t in tables[:2]]
+    return v
+
+def pairwise(rng, fmt, names, tables, limit):
+    """histories [a, b] for ordered pairs of distinct read calls: every call after every other call"""
+    v = vocabulary(fmt, names, tables)
+    pairs = [(a, b) for a in v for b in v if a != b and not (a.startswith("hdr") and b.startswith("hdr"))]
+    rng.shuffle(pairs)
+    return [[a, b] for a, b in pairs[:limit]]
 
 def bad(a):
     return a is None or a.startswith(("openerr", "nofile")) or a in ("abort", "timeout", "panic", "alloc", "")
@@ -74,6 +114,15 @@ def run(ctx):
     for (f, p, names, tables) in books:
         for _ in range(reps):
             hist.append((f, p, names, gen_history(ctx.rng, f, names, tables)))
+    # pairwise interleavings (every read call after every other one) on the books that have
+    # several sheets, merged regions or tables: generated workbooks first, then fixtures
+    rich = [b for b in books if len(b[2]) >= 2 and os.path.basename(b[1]).startswith("g")] + \
+           [b for b in books if b[3] or "merge" in os.path.basename(b[1])]
+    per_book = ctx.scale(60, 100000)
+    for (f, p, names, tables) in rich[:ctx.scale(12, 200)]:
+        for ops in pairwise(ctx.rng, f, names, tables, per_book):
+            hist.append((f, p, names, ops))
+            ctx.count("pairwise")
     # 1. the histories on one opened workbook each
     hl = ["h%d\topen\t%s\t%s\t%s" % (k, f, p, ";".join(ops)) for k, (f, p, names, ops) in enumerate(hist)]
     himpl = ctx.run_impl(hl)
@@ -172,6 +221,9 @@ def run(ctx):
             ctx.violations.append({"case": case, "expected": "C07 access-path agreement", "actual": ";;".join(a)[:300], "model": "", "what": why})
         else:
             ctx.nontrivial("paths|" + p)
+
+    import shutil
+    shutil.rmtree(vlib.tmpdir(ctx), ignore_errors=True)
 
 def search(ctx):
     run(ctx)
